@@ -87,6 +87,15 @@ pub enum Ctl {
         start: i32,
         n: i32,
     },
+    /// Sends `n` commands through the registered commander for lane `r{target}` of node `/target`
+    /// (`queued`: `send_queued`, never to be dropped; otherwise `send`, overwritable).
+    #[form(tag = "cs")]
+    CmdrSend {
+        target: i32,
+        queued: bool,
+        start: i32,
+        n: i32,
+    },
     #[form(tag = "no")]
     Nop,
 }
@@ -134,6 +143,8 @@ pub type SharedTruth = Arc<Mutex<Truth>>;
 #[derive(Clone)]
 pub struct SimLifecycle {
     pub truth: SharedTruth,
+    /// Commanders registered in `on_start` (one per registered target lane).
+    pub commanders: Arc<Mutex<Vec<swimos::agent::commander::Commander<SimAgent>>>>,
 }
 
 impl SimLifecycle {
@@ -236,6 +247,17 @@ impl SimLifecycle {
                     })
             })
             .followed_by(context.effect(move || me2.rec(TruthEv::Start)))
+            .followed_by({
+                let me3 = self.clone();
+                context.create_commander(None, "/target", "r0").and_then(move |c0| {
+                    context.create_commander(None, "/target", "r1").map(move |c1| {
+                        let mut g = me3.commanders.lock().unwrap();
+                        g.clear();
+                        g.push(c0);
+                        g.push(c1);
+                    })
+                })
+            })
     }
 
     #[on_stop]
@@ -456,6 +478,20 @@ impl SimLifecycle {
                             .followed_by(context.effect(move || me.rec(TruthEv::Sent { target, overwrite, value: v })))
                             .boxed_local(),
                     );
+                }
+            }
+            Ctl::CmdrSend { target, queued, start, n } => {
+                let cmdr = self.commanders.lock().unwrap().get(target.rem_euclid(2) as usize).copied();
+                if let Some(cmdr) = cmdr {
+                    for i in 0..n {
+                        let me = self.clone();
+                        let v = start + i;
+                        let send = if queued { cmdr.send_queued(v) } else { cmdr.send(v) };
+                        hs.push(
+                            send.followed_by(context.effect(move || me.rec(TruthEv::Sent { target: 10 + target.rem_euclid(2), overwrite: !queued, value: v })))
+                                .boxed_local(),
+                        );
+                    }
                 }
             }
             Ctl::Nop => hs.push(UnitHandler::default().boxed_local()),
